@@ -171,10 +171,10 @@ pub fn counts() -> Counts {
 }
 pub fn delta(a: Counts, b: Counts) -> Counts {
     Counts {
-        alloc: b.alloc - a.alloc,
-        realloc: b.realloc - a.realloc,
-        dealloc: b.dealloc - a.dealloc,
-        bytes: b.bytes - a.bytes,
+        alloc: b.alloc.wrapping_sub(a.alloc),
+        realloc: b.realloc.wrapping_sub(a.realloc),
+        dealloc: b.dealloc.wrapping_sub(a.dealloc),
+        bytes: b.bytes.wrapping_sub(a.bytes),
     }
 }
 
